@@ -241,7 +241,9 @@ def r2_guards(ctx):
                   'attachment count is reachable without an upper bound on '
                   'the number of digits', where=where(f, n))
     # id scanner: loop bounded by a numeric constant, overflow rejected
-    loops = [n for n in walk_own(f.node) if isinstance(n, ast.While)]
+    from ..sym import with_new_helpers
+    loops = [n for g in with_new_helpers(m, f)
+             for n in walk_own(g.node) if isinstance(n, ast.While)]
     bounded = False
     for lp in loops:
         for c in ast.walk(lp):
